@@ -13,6 +13,8 @@ def fmt_terms(terms, limit=3):
     if not xs:
         xs = sorted({sym.fmt(t) for t in terms})
     xs = [re.sub(r"var:\w+", "var", re.sub(r"promoted\[\d+\]", "promoted", x)) for x in xs]
+    if xs and all(isinstance(t, tuple) and t[0] == "const" for t in terms):
+        limit = 16          # a set of literals (e.g. the characters of a `contains([..])` test) is kept whole
     return "|".join(xs[:limit]) if xs else "?"
 
 
@@ -27,7 +29,7 @@ def op_desc(b, S, op):
             terms = {("f", x, nm) for x in terms}
     if not terms:
         ty = b.locals[pl["l"]]["ty"]
-        return "local:" + ty.replace("std::", "")
+        return "local:" + re.sub(r"\{closure@[^}]*\}", "{closure}", ty.replace("std::", ""))
     return fmt_terms(terms)
 
 
